@@ -264,6 +264,15 @@ def quotient_cases(rng, quick):
         out.append(Case('alg_mul', line('alg_mul', f, a, a), oracle=o_val(mulmod(a, a, f), 'a*a'), nontrivial=nt and len(a) > 1, tag=tag))
         out.append(Case('alg_add', line('alg_add', f, a, b), oracle=o_val(padd(a, b), 'a+b'), nontrivial=nt, tag='alg:addsub'))
         out.append(Case('alg_sub', line('alg_sub', f, a, b), oracle=o_val(psub(a, b), 'a-b'), nontrivial=nt, tag='alg:addsub'))
+        # the by-value operator impls (separate code in algebraic.rs), operands of different length in both orders, and equality
+        for x_, y_ in ((a, b), (b, a), (a[:1], b), (b, a[:1]), ([], b), (a, [])):
+            x_, y_ = ptrim(x_), ptrim(y_)
+            out.append(Case('alg_add_owned', line('alg_add_owned', f, x_, y_), oracle=o_val(padd(x_, y_), 'a+b (by value)'), nontrivial=nt, tag='alg:addsub-owned'))
+            out.append(Case('alg_sub_owned', line('alg_sub_owned', f, x_, y_), oracle=o_val(psub(x_, y_), 'a-b (by value)'), nontrivial=nt, tag='alg:addsub-owned'))
+        out.append(Case('alg_mul_owned', line('alg_mul_owned', f, a, b), oracle=o_val(mulmod(a, b, f), 'a*b (by value)'), nontrivial=nt, tag='alg:mul-owned'))
+        for x_, y_ in ((a, a), (a, b), (a, a[:-1]), (a[:-1], a), (a, []), ([], a), (a, a[:1]), (a[:1], a)):
+            x_, y_ = ptrim(x_), ptrim(y_)
+            out.append(Case('alg_eq', line('alg_eq', f, x_, y_), oracle=o_eqb(x_ == y_), nontrivial=nt, tag='alg:eq'))
         if rng.random() < 0.3:
             a2 = a[:-1] + [-a[-1]] if a else a       # cancelling leading terms
             out.append(Case('alg_add', line('alg_add', f, a, a2), oracle=o_val(padd(a, a2), 'a+b'), nontrivial=nt, tag='alg:addsub'))
@@ -482,6 +491,12 @@ def nonring_cases(rng, quick):
     out.append(L('ord_mult_table', [Id('sgnew'), [5, 0, 1]], [1, 1, 0, 1]))
     out.append(L('ord_mult_table', [Id('sgnew'), [1, 1, 0, 1]], [5, 0, 1]))
     return out
+
+def o_eqb(expected):
+    def orc(ia):
+        if ia.kind != 'ok' or ia.val is not expected: return 'equality says %s, the elements are %s' % (ia.raw[:40], 'equal' if expected else 'different')
+        return None
+    return orc
 
 def cases(rng, tier):
     quick = tier == 'quick'
